@@ -20,6 +20,68 @@ theorem unit16_bytes (be : Bool) (u : Nat) :
     (if be then unit16 be (u / 256) (u % 256) else unit16 be (u % 256) (u / 256)) = u := by
   cases be <;> simp [unit16] <;> omega
 
+theorem and_mask (x n : Nat) (m : Nat) (hm : m = 2 ^ n - 1) : x &&& m = x % 2 ^ n := by
+  subst hm; exact Nat.and_two_pow_sub_one_eq_mod x n
+
+theorem shl_or (a b : Nat) (h : b < 64) : a <<< 6 ||| b = a * 64 + b := by
+  rw [← Nat.shiftLeft_add_eq_or_of_lt (i := 6) (by simpa using h) a, Nat.shiftLeft_eq]
+
+theorem trailVal_enc (k : Nat) (h : k < 64) : trailVal (0x80 + k) = some k := by
+  unfold trailVal
+  have : 0x80 ≤ 0x80 + k ∧ 0x80 + k ≤ 0xbf := by omega
+  rw [if_pos this]
+  have e : 0x80 + k - 0x80 = k := by omega
+  rw [e]
+
+theorem table3 : ∀ l, l < 16 → ∀ k, k < 64 → (l = 0 → 32 ≤ k) → (l = 13 → k < 32) →
+    (lead3T1Bits.getD l 0) &&& (1 <<< ((0x80 + k) >>> 5)) ≠ 0 := by decide
+
+theorem table4 : ∀ l, l < 5 → ∀ k, k < 64 → (l = 0 → 16 ≤ k) → (l = 4 → k < 16) →
+    (lead4T1Bits.getD ((0x80 + k) >>> 4) 0) &&& (1 <<< l) ≠ 0 := by decide
+
+theorem dec2 (a b t : Nat) (rest : List Nat) (h1 : 0xC2 ≤ a) (h2 : a < 0xE0) (ht : trailVal b = some t) :
+    decodeUtf8 (a :: b :: rest) = ((((a &&& 0x1f) <<< 6 ||| t : Nat) : Int), 2) := by
+  have n1 : ¬ a < 0x80 := by omega
+  have n2 : ¬ a ≥ 0xe0 := by omega
+  have n3 : a ≥ 0xc2 := h1
+  simp only [decodeUtf8, n1, n2, n3, if_false, if_true, ht]
+
+theorem dec3 (a b c t : Nat) (rest : List Nat) (h1 : 0xE0 ≤ a) (h2 : a < 0xF0)
+    (hb : (lead3T1Bits.getD (a &&& 0xf) 0) &&& (1 <<< (b >>> 5)) ≠ 0) (ht : trailVal c = some t) :
+    decodeUtf8 (a :: b :: c :: rest) = ((((((a &&& 0xf) <<< 6) ||| (b &&& 0x3f)) <<< 6 ||| t : Nat) : Int), 3) := by
+  have n1 : ¬ a < 0x80 := by omega
+  have n2 : a ≥ 0xe0 := h1
+  simp only [decodeUtf8, n1, n2, h2, hb, ne_eq, not_false_eq_true, if_false, if_true, ht]
+
+theorem dec4 (a b c d t t' : Nat) (rest : List Nat) (h1 : 0xF0 ≤ a) (h2 : a - 0xf0 ≤ 4)
+    (hb : (lead4T1Bits.getD (b >>> 4) 0) &&& (1 <<< (a - 0xf0)) ≠ 0)
+    (ht : trailVal c = some t) (ht' : trailVal d = some t') :
+    decodeUtf8 (a :: b :: c :: d :: rest) =
+      (((((((a - 0xf0) <<< 6) ||| (b &&& 0x3f)) <<< 6 ||| t) <<< 6 ||| t' : Nat) : Int), 4) := by
+  have n1 : ¬ a < 0x80 := by omega
+  have n2 : a ≥ 0xe0 := by omega
+  have n3 : ¬ a < 0xf0 := by omega
+  have hc : a - 0xf0 ≤ 4 ∧ (lead4T1Bits.getD (b >>> 4) 0) &&& (1 <<< (a - 0xf0)) ≠ 0 := ⟨h2, hb⟩
+  simp only [decodeUtf8, n1, n2, n3, hc, ne_eq, not_false_eq_true, and_self, if_false, if_true, ht, ht']
+
+theorem decodeSeq_encode (dec : List Nat → Int × Nat) (enc : Nat → List Nat)
+    (hdec : ∀ c rest, Scalar c → dec (enc c ++ rest) = ((c : Int), (enc c).length))
+    (hne : ∀ c, enc c ≠ []) :
+    ∀ (cs : List Nat) (fuel : Nat), (∀ c ∈ cs, Scalar c) → cs.length ≤ fuel →
+      decodeSeq dec fuel (cs.flatMap enc) = cs.map (fun (c : Nat) => ((c : Int), (enc c).length))
+  | [], fuel, _, _ => by cases fuel <;> simp [decodeSeq]
+  | c :: cs, 0, _, hl => by simp at hl
+  | c :: cs, fuel + 1, hs, hl => by
+    have hc := hs c (by simp)
+    have hne' : (enc c ++ cs.flatMap enc).isEmpty = false := by
+      cases h : enc c with
+      | nil => exact absurd h (hne c)
+      | cons a b => rfl
+    simp only [List.flatMap_cons, decodeSeq, hne', Bool.false_eq_true, if_false, List.map_cons]
+    rw [hdec c _ hc]
+    simp only [List.drop_left']
+    rw [decodeSeq_encode dec enc hdec hne cs fuel (fun x hx => hs x (List.mem_cons_of_mem _ hx)) (by simpa using hl)]
+
 end TsVerif.Utf
 
 namespace TsVerif.C09
